@@ -838,6 +838,9 @@ def desugar_closure_calls(raw, originals, stats=None, owner=None, upvar_closures
                             q = upvar_closures[int(pr_[0].split(":")[1])]
                             from_upvar = True
                             break
+                if rv["k"] == "use" and rv["op"].get("k") == "const" and rv["op"].get("fn"):
+                    q = ("fn", rv["op"])            # the callable is a function item
+                    break
                 if rv["k"] == "use" and rv["op"].get("k") in ("move", "copy"):
                     cur = rv["op"]["p"]
                 elif rv["k"] == "ref" and not rv["p"][1]:
